@@ -111,4 +111,12 @@ example : armSoundOutT .int .i16 (Gen.coerceOutInt.armFor .i16) = true ∧
     armSoundOutT .string .bool (Gen.coerceOutString.armFor .bool) = true ∧
     armSoundInT .int .f64 (Gen.coerceInInt.armFor .f64) = true := by decide
 
+/-- **C05_time_range_checked.**  The number arms of the Time scalar (both directions) on this run refuse seconds that
+do not fit nanoseconds in an int64, NaN and the infinities (D92 repaired: `time.Unix(0, tv*int64(time.Second))`
+wrapped, so `Time ← 9999999999999` wrote a date in 2029 and an argument of that value reached the resolver as
+one). -/
+theorem C05_time_range_checked :
+    (Gen.coerceOutTime.armFor .i64 == .timeOfIntChk && Gen.coerceOutTime.armFor .f64 == .timeOfFloatChk &&
+     Gen.coerceInTime.armFor .i64 == .timeOfIntChk && Gen.coerceInTime.armFor .f64 == .timeOfFloatChk) = true := by decide
+
 end Ggql.Coerce
